@@ -709,7 +709,7 @@ class C19(Prop):
             if o['at'] >= stop and obs['rets'].get(i) is None:
                 continue          # starts at / behind the end of the window
             # driver hooks (handle_enable / handle_disable) that raised in the meantime put the flag back
-            for t, back in [h for h in hook_ends if h[0] <= o['at']]:
+            for t, back in sorted(h for h in hook_ends if h[0] <= o['at']):
                 enabled = back
                 hook_ends.remove((t, back))
             ret = obs['rets'].get(i)
@@ -797,7 +797,7 @@ class C19(Prop):
                     running = None
                     tags.add('stopped-by-expression')
                 has_expr = bool(op[1])
-        for t, back in hook_ends:
+        for t, back in sorted(hook_ends):
             if t < stop:
                 enabled = back
         # attribute the submissions to the installed sequences by value (value sets are disjoint by construction)
